@@ -17,7 +17,8 @@ from ..world import World, digest_obj, stamp, tick
 
 C = {"c1": b"aaaa", "c2": b"bbbb", "c3": b"cc", "big1": b"1" * (2**20 + 1), "big2": b"2" * (2**20 + 1)}
 FILES = ["f1", "f2"]
-US = 1000  # logical clock step: 1 microsecond, so that all mutations fall into the same second
+US = 500  # logical clock step: half a microsecond - all mutations fall into the same second, and neighbouring
+#           stamps share their microsecond (a token that rounds mtimes to microseconds would not tell them apart)
 
 
 def alphabet():
